@@ -106,6 +106,11 @@ func (ip *IndexPos) loadChunk() error {
 	}
 	chunk, err := ip.Store.GetChunk(ip.curChunkID)
 	if err != nil {
+		if err == io.EOF {
+			// A store can fail with io.EOF (e.g. a casync protocol session that ended).
+			// Passing it on from Read would look like the regular end of the blob.
+			err = io.ErrUnexpectedEOF
+		}
 		return err
 	}
 	b, err := chunk.Data()
